@@ -26,3 +26,17 @@ Proof.
   unfold C13.Model.check_tract_spec in Hc. destruct (C13.Model.check_spec_from 0 (C13.Model.pc_exts c)) as [e|]; [|discriminate].
   exists e. split; [reflexivity|]. apply Bool.negb_true_iff, N.ltb_ge in Hc. exact Hc.
 Qed.
+
+(* the alignment hypothesis of the pad-alignment theorem (C11/ProofsBE.v aligned_sub) is the other half of C13's wf_pchunk:
+   every extent of every chunk packTracts produces starts at a multiple of padToLength *)
+Lemma packed_layouts_aligned : forall lens (mk : C13.Model.ext -> enc_tract),
+  (forall x, et_off (mk x) = C13.Model.e_off x /\ et_len (mk x) = C13.Model.e_len x) ->
+  Forall (fun l => C13.Model.padded l <= c_meta_RSPieceLength) lens ->
+  Forall (fun c => Forall (fun e => et_off e mod c13_padToLength = 0) (map mk (C13.Model.pc_exts c)))
+         (C13.Model.ffd lens c_meta_RSPieceLength).
+Proof.
+  intros lens mk Hmk Hl. pose proof (C13.Props.pack_layout_wf lens c_meta_RSPieceLength Hl) as W.
+  eapply Forall_impl; [|exact W]. intros c [(e & _ & _ & _ & _ & Ha) _].
+  apply Forall_forall. intros y Hy. apply in_map_iff in Hy. destruct Hy as (x & <- & Hx).
+  rewrite Forall_forall in Ha. rewrite (proj1 (Hmk x)). exact (Ha x Hx).
+Qed.
